@@ -820,6 +820,8 @@ func main() {
 	acceptBatches := flag.Int("acceptbatches", 12, "batches per acceptance history")
 	achild := flag.String("acceptchild", "", "internal: replay this file (accepted history + one batch) on a fresh shard and print the verdict")
 	aprobe := flag.String("acceptprobe", "", "internal: run one pinned-assumption probe")
+	aworker := flag.String("acceptworker", "", "internal: run acceptance history -accepth and write its lines (JSON) to this file")
+	accepth := flag.Int("accepth", 0, "internal: the history number of -acceptworker")
 	flag.Parse()
 	zerolog.SetGlobalLevel(zerolog.Disabled)
 	if *achild != "" {
@@ -828,6 +830,10 @@ func main() {
 	}
 	if *aprobe != "" {
 		acceptProbe(*aprobe)
+		return
+	}
+	if *aworker != "" {
+		acceptWorker(*seed, *accepth, *acceptBatches, *aworker)
 		return
 	}
 	if *replay != "" {
